@@ -55,6 +55,8 @@ func rulesC03(c *Ctx) {
 	c03Clock(c)
 	c04RecordInternals(c)
 	c04HalfOpenPermits(c)
+	// "admission decisions": an execution is admitted by asking the breaker for a permit, exactly once
+	c04Gate(c)
 	c.Rule("shared")
 	c12Shared(c)
 	buildersStore(c, "circuitbreaker")
